@@ -144,3 +144,18 @@ Definition check_keyenc_case (c : keyenc_case) : bool :=
   | EcVerifier o k ok =>
       Bool.eqb (match ecdsa_to_public (crypto_of o) k with Some pk => ecdsa_point_ok (crypto_of o) pk | None => false end) ok
   end.
+
+(* ---- F20 (known finding): the sign bit of a compressed embedded point of a PRIVATE EC2 key is never compared with
+   d*G. Whatever d*G is, the same private key carrying the right x with y = true and with y = false both pass
+   ToPublicKey (and KeyToPrivate): one of the two embeds the point (x, -y), which is not d*G. The suite pins this
+   (key/ecdsa TestToPublicKey accepts both values for one key), so it is recorded, not repaired. *)
+Definition f20_C (px py : Z) : crypto :=
+  {| ed_public := fun _ => []; ec_base_mul := fun _ _ => (px, py); ec_on_curve := fun _ _ _ => true;
+     ec_decompress := fun _ _ _ => None; ecdh_new_private := fun _ _ => true; ecdh_public_bytes := fun _ _ => []; ecdh_new_public := fun _ _ => true |}.
+Definition f20_key (sign : bool) : cosemap :=
+  [(ilabel 1, VInt KInt 2); (ilabel 3, VInt KInt (-7)); (ilabel (-1), VInt KInt 1); (ilabel (-4), VBytes (hex "0a79"));
+   (ilabel (-2), VBytes (hex "05")); (ilabel (-3), VBool sign)].
+Theorem wrong_sign_bit_of_private_key_accepted_refuted :
+  forall py, exists pk, ecdsa_to_public (f20_C 5 py) (f20_key true) = Some pk /\ ecdsa_to_public (f20_C 5 py) (f20_key false) = Some pk
+                        /\ has (f20_key true) (-4) = true.
+Proof. intro py. eexists. repeat split; vm_compute; reflexivity. Qed.
